@@ -185,6 +185,18 @@ impl CallerInformation {
 
     pub const fn timestamp(&self) -> Timestamp { self.timestamp }
 
+    /// Whether a repair done on behalf of this caller has to check every
+    /// dependency, dirty or not: an executor that asked for it, or a backward
+    /// projection propagation.
+    #[must_use]
+    pub const fn pedantic_repair(&self) -> bool {
+        match &self.kind {
+            CallerKind::Query(query_caller) => query_caller.pedantic_repair,
+            CallerKind::BackwardProjectionPropagation => true,
+            _ => false,
+        }
+    }
+
     /// Returns `true` if pedantic repair is still an option for this caller:
     /// it is an executor that is not repairing pedantically already.
     #[must_use]
